@@ -174,6 +174,18 @@ def run(idx, rep, tier):
         ok = sh == f"({p}.shape[1],{p}.shape[0])"
         rep.decide(ok, "inverse-rule", "LSTSQSolve.__init__:shape", f"pseudo-inverse operator has shape {sh}" + ("" if ok else " (must be (columns, rows) of A)"), detail="" if ok else "shape",
                    locs=[idx.loc(init.module, init.node)])
+    # ---- HOMOG on the CG routine: "the requested tolerance" is relative to the right-hand side on the iterative path
+    from props.C12 import find_routine
+    from sa import loop as lp
+    from sa.homog import solver_scale_obligations
+    from sa.krylov import closure
+    routine, _fns = find_routine(idx, rep, "CG")
+    if routine is not None:
+        loops = lp.find_loops(idx, routine)
+        cond = loops[0].cond if loops else None
+        cond_fns = closure(idx, cond, same_module=True) if cond is not None and not isinstance(cond, ast.Lambda) else []
+        solver_scale_obligations(idx, rep, routine, cond_fns, "relative-tolerance", "cg", cap_param="-")
+    rep.floor("relative-tolerance", 2)
     rep.floor("inverse-rule", 17)
     rep.floor("alg-forwarded", 4)
     rep.floor("auto-rule", 4)
